@@ -24,6 +24,104 @@ func c07Streams(c *Ctx) {
 	c07DepthStream(c)
 	c07SplitStream(c)
 	c07UntypedStream(c)
+	c07DefaultOutStream(c)
+	c07OrderStream(c)
+}
+
+// default   the legacy whole-stage shorthand `x = STAGE` (meaning
+//
+//	`x = STAGE.default` when the stage has an unnamed output
+//	`out T,`) and the explicit `x = STAGE.default`, for every ordered
+//	pair (parameter type, default output type) of 15 types incl. all
+//	implicit conversions in both directions, with the stage called
+//	singly and array-mapped, with and without further outputs
+func c07DefaultOutStream(c *Ctx) {
+	types := []*c17Ty{c07B("int"), c07B("float"), c07B("string"), c07B("path"), c07B("file"), c07U("txt"), c07B("bool"),
+		c07A(c07B("int")), c07A(c07B("float")), c07A(c07B("string")), c07A(c07B("file")), c07A(c07A(c07B("int"))),
+		c07M(c07B("int")), c07Pair, c07B("map")}
+	for _, pt := range types {
+		for _, dt := range types {
+			for _, mode := range []byte{'s', 'a'} {
+				for _, extra := range []bool{false, true} {
+					if extra && mode == 'a' {
+						continue
+					}
+					outs := []c17Field{{"default", dt}}
+					if extra {
+						outs = []c17Field{{"o0", c07B("int")}, {"default", dt}}
+					}
+					asym := pt.enc() != dt.enc()
+					for _, e := range []*c07Exp{c07Ref('c', "PROD"), c07Ref('c', "PROD", "default")} {
+						env := &c07Env{prodMode: mode, prodOuts: outs}
+						p, nb := c07One("x0", pt, c07Bind{e: e})
+						class := "default_out"
+						if asym && len(e.path) == 0 {
+							class = "default_out_shorthand_other_type"
+						}
+						c07JudgeCase(c, &c07Case{env: env, params: []c17Field{p}, binds: []c07NamedBind{nb}}, class)
+					}
+				}
+			}
+		}
+	}
+}
+
+// order     the calls of the pipeline written in every textual order (the
+//
+//	compiler sorts them), with the `disabled` modifier bound to an
+//	output of the producer (called singly / array-mapped / map-mapped;
+//	output bool, bool[], int, map<bool>), the modifier being the ONLY
+//	dependency on the producer or accompanied by an ordinary binding
+func c07OrderStream(c *Ctx) {
+	perms := [][]int{{0, 1, 2}, {0, 2, 1}, {1, 0, 2}, {1, 2, 0}, {2, 0, 1}, {2, 1, 0}}
+	for _, mode := range []byte{'s', 'a', 'm'} {
+		for _, ot := range []*c17Ty{c07B("bool"), c07A(c07B("bool")), c07B("int"), c07M(c07B("bool"))} {
+			for _, ordinary := range []int{0, 1, 2} { // 0: modifier only; 1: also a well-typed binding; 2: split over the producer
+				for _, perm := range perms {
+					env := &c07Env{prodMode: mode, prodOuts: []c17Field{{"o0", ot}, {"o1", c07B("int")}}, selfs: []c17Field{{"s0", c07B("int")}}}
+					cs := &c07Case{env: env, order: perm}
+					lifted := c07B("int")
+					switch mode {
+					case 'a':
+						lifted = c07A(lifted)
+					case 'm':
+						lifted = c07M(lifted)
+					}
+					switch ordinary {
+					case 0:
+						p, nb := c07One("x0", c07B("int"), c07Bind{e: c07Int(1)})
+						cs.params, cs.binds = append(cs.params, p), append(cs.binds, nb)
+					case 1:
+						p, nb := c07One("x0", lifted, c07Bind{e: c07Ref('c', "PROD", "o1")})
+						cs.params, cs.binds = append(cs.params, p), append(cs.binds, nb)
+					case 2:
+						if mode == 's' {
+							continue
+						}
+						p, nb := c07One("x0", c07B("int"), c07Bind{split: true, e: c07Ref('c', "PROD", "o1")})
+						cs.params, cs.binds = append(cs.params, p), append(cs.binds, nb)
+						cs.mapped = true
+					}
+					cs.params = append(cs.params, c17Field{"disabled", c07B("bool")})
+					cs.binds = append(cs.binds, c07NamedBind{"disabled", c07Bind{e: c07Ref('c', "PROD", "o0")}})
+					class := "order"
+					sBeforeProd := false
+					for _, k := range perm {
+						if k == 2 {
+							sBeforeProd = true
+						}
+						if k == 0 {
+							break
+						}
+					}
+					if ordinary == 0 && sBeforeProd && mode != 's' {
+						class = "order_modifier_only_dep_on_later_mapped_call"
+					}
+					c07JudgeCase(c, cs, class)
+				}
+			}
+		}
+	}
 }
 
 var c07Shapes = []func(*c17Ty) *c17Ty{
